@@ -407,6 +407,7 @@ func (s *lsSim) genUpdate(k int) (pb.Update, jUp) {
 	ud := pb.Update{ShardID: n.Shard, ReplicaID: n.Replica}
 	ju := jUp{N: k, Ents: []jLE{}}
 	c := s.rng.Intn(100)
+	quiet := false
 	switch {
 	case n.bornAt > 0 && !n.hasState && s.forceCnt == 0:
 		// the replica was removed from this host and is created again: it is brought up to date by a snapshot
@@ -426,7 +427,12 @@ func (s *lsSim) genUpdate(k int) (pb.Update, jUp) {
 			// stale suffix of another term, the logical log ends at the snapshot
 			idx = n.commit + 1 + uint64(s.rng.Intn(int(n.last-n.commit)))
 		}
-		n.lastTerm++
+		// a snapshot received from the leader of the current term: neither term nor vote changes with it, the
+		// update carries the snapshot record and a new commit index only (crash mode, every second one)
+		quiet = s.rng2 != nil && s.rng2.Intn(2) == 0 && n.term >= n.lastTerm && n.lastTerm > 0
+		if !quiet {
+			n.lastTerm++
+		}
 		ud.Snapshot = pb.Snapshot{Index: idx, Term: n.lastTerm, Type: pb.RegularStateMachine}
 		ju.Ss, ju.SsT = idx, n.lastTerm
 		n.last, n.floor, n.ss, n.rm = idx, idx, idx, idx
@@ -470,12 +476,14 @@ func (s *lsSim) genUpdate(k int) (pb.Update, jUp) {
 		if n.term < n.lastTerm {
 			n.term = n.lastTerm
 		}
-		if s.rng.Intn(4) == 0 || s.forceCnt > 0 {
+		if (s.rng.Intn(4) == 0 || s.forceCnt > 0) && !quiet {
 			n.term++
 			n.vote = 0
 		}
 		if s.rng.Intn(3) == 0 {
-			n.vote = uint64(1 + s.rng.Intn(3))
+			if v := uint64(1 + s.rng.Intn(3)); !quiet {
+				n.vote = v
+			}
 		}
 		if n.commit < n.last && s.rng.Intn(2) == 0 {
 			n.commit += uint64(s.rng.Intn(int(n.last-n.commit) + 1))
